@@ -259,6 +259,34 @@ def violates_table(rng):
     rows = gen_table(rng)
     rows = [r for r in rows]
     t = real_table(rows, rng)
+    # the cells, read independently of the reader under test: a value, a range, `any`, an EMPTY cell (no value at all) and
+    # the ditto mark, which repeats the cell to its left whatever that was (an empty cell included)
+    for row in rows:
+        k, cells = row.split(":")
+        prev = set()
+        for i, c in enumerate(cells.split("|")):
+            if c == "any":
+                want = None
+            elif c == "DITTO":
+                want = prev
+            elif c == "-":
+                want = set()
+            else:
+                want = set()
+                for it in c.split(","):
+                    if "~" in it:
+                        lo, hi = it.split("~")
+                        want |= set(range(int(lo), int(hi) + 1))
+                    else:
+                        want.add(int(it))
+            prev = want
+            got = t[i].get(k)
+            if got is None:
+                return {"rows": rows, "why": "column %d has no entry for %s" % (i, k)}
+            for v in range(-1, 13):
+                if (v in got) != (want is None or v in want):
+                    return {"rows": rows, "why": "cell %s of column %d (%r) %s %d, the table text says otherwise" % (
+                        k, i, c, "admits" if v in got else "refuses", v)}
     if any(len(c) == 0 for c in t):
         return None
     vals = {}
